@@ -965,7 +965,7 @@ Proof.
       prepS HS Hph h. specialize (FR eq_refl). specialize (CD eq_refl).
       destruct hb; simSall; constructor; simS; rewrite ?FR in *; triv; try (bk BH; fail); try (bk BC; fail);
         rewrite ?app_nil_r in *; cbn [vals map app zlen length] in *; triv;
-        try (intros count Ecnt; inversion Ecnt; subst; lia).
+        try (intros count Ecnt; inversion Ecnt; subst; lia). Show.
     + destruct HH as [TM TOT WR WOK MONO RT].
       assert (Eb : base (set_ph g (PhCool (tickets h))) (negb (hot h)) = base g (hot h)).
       { unfold base. cbn [set_ph gph flipped]. rewrite Hph, negb_involutive. reflexivity. }
